@@ -471,6 +471,12 @@ func (rm *RegistrationManager) NewRegistrationC2SWrapper(c2sw *pb.C2SWrapper, in
 		reg.PhantomIp = ipOverride
         }
 
+	if l := len(reg.PhantomIp); l != net.IPv4len && l != net.IPv6len {
+		// A registrar response whose address field is not an address (the response is not
+		// verified here): it would be tracked and announced to the detector as "?0102..".
+		return nil, fmt.Errorf("failed because phantom address has invalid length %d", l)
+	}
+
 	clientAddr := net.IP(c2sw.GetRegistrationAddress())
 
 	if l := len(clientAddr); l != 0 && l != net.IPv4len && l != net.IPv6len {
